@@ -19,6 +19,10 @@ FORMATS = {  # iid -> (format, struct code, perms)
     14: ("int", "<i", ["pr", "pw", "tw"]), 15: ("float", "<f", ["pr"]), 16: ("string", None, ["pr", "pw"]), 17: ("uint8", "B", ["pw"])}
 
 
+# two characteristics of one type in one service (two outlets, two buttons ...): told apart by their instance ids only
+TWINS = {20: 0x20, 21: 0x20, 22: 0x20}
+
+
 def char_uuid(iid):
     return "0000FF%02X" % iid + UUID_BASE
 
@@ -29,7 +33,8 @@ def model_db():
             {"iid": 2, "type": CH_PAIR_SETUP, "perms": ["pr", "pw"], "format": "tlv8"}, {"iid": 3, "type": CH_PAIR_VERIFY, "perms": ["pr", "pw"], "format": "tlv8"},
             {"iid": 5, "type": CH_PAIRING_FEATURES, "perms": ["pr"], "format": "uint8"}, {"iid": 4, "type": CH_PAIRINGS, "perms": ["pr", "pw"], "format": "tlv8"}]},
         {"iid": 8, "type": SVC_TEST, "characteristics": [
-            {"iid": iid, "type": char_uuid(iid), "perms": perms, "format": fmt} for iid, (fmt, code, perms) in FORMATS.items()]}]}]
+            {"iid": iid, "type": char_uuid(iid), "perms": perms, "format": fmt} for iid, (fmt, code, perms) in FORMATS.items()] + [
+            {"iid": iid, "type": char_uuid(t), "perms": ["pr", "pw"], "format": "uint8"} for iid, t in TWINS.items()]}]}]
 
 
 class BleWorld:
@@ -41,6 +46,8 @@ class BleWorld:
         self.ios_ltpk = ed_pub(ed_from_seed(self.ios_seed))
         self.ident.controllers[ios_id.encode()] = self.ios_ltpk
         chars = {iid: {"uuid": char_uuid(iid), "format": fmt, "perms": list(perms), "value": (struct.pack(code, 0) if code else b"")} for iid, (fmt, code, perms) in FORMATS.items()}
+        for iid, t in TWINS.items():
+            chars[iid] = {"uuid": char_uuid(t), "format": "uint8", "perms": ["pr", "pw"], "value": b"\x00"}
         self.acc = RefBleAccessory(self.ident, chars)
         self.att_payload = att_payload
         self.clients = []
